@@ -217,9 +217,9 @@ def handler_configs(tier):
             dict(shape=F, pr=p1, mode='queue', no_octopus=True),
             dict(shape=F, pr=p1, mode='skip', no_octopus=True)]
     if tier == 'thorough':
+        # (the complete handler on three targets did not finish in 400 s per configuration - DESIGN 12)
         cfgs += [dict(shape=F, pr=p1, mode='noqueue', no_octopus=False),
-                 dict(shape=A, pr=p1, mode='noqueue', no_octopus=True),
-                 dict(shape=A, pr=p1, mode='queue', no_octopus=True)]
+                 dict(shape=F, pr=p1, mode='queue', no_octopus=False)]
     return cfgs
 
 
